@@ -227,6 +227,13 @@ def checkTbl (case impl : List String) : List Fail := Id.run do
       substRefs (opToks.getD i "") refs
     let some ops := opToks.mapM parseOpTok | return bad "op token"
     let cntOff := 36 + cfg.pre.length
+    -- the table-header revision byte is an observed parameter of the reference (DESIGN §4):
+    -- a revision bump is not a property violation
+    let cfg : TblCfg := match obs[0]? with
+      | some (some o0) => (match o0.full with
+        | some (h, _, _, _) => { cfg with rev := h.getD 8 cfg.rev }
+        | none => cfg)
+      | _ => cfg
     let mut fails : List Fail := []
     -- (the offset limit of VIOT is decided by `tOff` below, never by the Length-fed copy)
     let mut t := Tbl.new { cfg with maxOffset := none } ⟨oid, otab, orev⟩
